@@ -15,7 +15,7 @@ CONSTANTS
   FaultKinds <- FaultsVal
   FinFirst = TRUE
   RvCheck = TRUE
-  FixDeleting = FALSE
+  FixDeleting = TRUE
   FixMiss = FALSE
   FixStale = FALSE
 VIEW view
